@@ -708,6 +708,35 @@ theorem env_fold_header (hs : List (Str × Str)) (base : List (Str × EVal)) (n 
       exact key hs _ ⟨v, by rw [odGet_odSet]; simp⟩
 
 
+theorem odGet_mem_keys {β : Type} (d : List (Str × β)) (k : Str) (v : β) (h : odGet d k = some v) :
+    k ∈ d.map Prod.fst := by
+  induction d with
+  | nil => cases h
+  | cons a d ih =>
+    obtain ⟨ka, va⟩ := a
+    simp only [odGet] at h
+    by_cases hk : ka = k
+    · simp [hk]
+    · simp only [hk, if_false] at h
+      simp [ih h]
+
+/-- converse of `env_fold_header`: a key the header loop made appear (or changed) is the `HTTP_` key of a header -/
+theorem env_fold_only (hs : List (Str × Str)) (base : List (Str × EVal)) (k : Str) (v : EVal)
+    (h : odGet (hs.foldl (fun env kv => odSet env (envKey kv.1) (.str kv.2)) base) k = some v) :
+    odGet base k = some v ∨ ∃ n t, (n, t) ∈ hs ∧ k = envKey n ∧ v = .str t := by
+  induction hs generalizing base with
+  | nil => exact Or.inl h
+  | cons kv hs ih =>
+    simp only [List.foldl_cons] at h
+    rcases ih _ h with h1 | ⟨n, t, hm, hk, hv⟩
+    · rw [odGet_odSet] at h1
+      by_cases he : envKey kv.1 = k
+      · simp only [he, if_true, Option.some.injEq] at h1
+        exact Or.inr ⟨kv.1, kv.2, by simp, he.symm, h1.symm⟩
+      · simp only [he, if_false] at h1
+        exact Or.inl h1
+    · exact Or.inr ⟨n, t, by simp [hm], hk, hv⟩
+
 instance (s : Str) : Decidable (Visible s) := by unfold Visible; infer_instance
 instance (s : Str) : Decidable (GoodName s) := by unfold GoodName; infer_instance
 instance (s : Str) : Decidable (Trimmed s) := by unfold Trimmed; infer_instance
